@@ -247,6 +247,9 @@ func genMsg(r *rand.Rand, n int, flavour string) []string {
 			for j := 0; j < 4; j++ {
 				out = append(out, tamper(r, p))
 			}
+			if i%2 == 0 {
+				out = append(out, history(r, p)...)
+			}
 		}
 	}
 	return out
@@ -264,10 +267,16 @@ func removeTag(b []byte) []byte {
 
 // tamper: one consume op on an altered message / key / external data
 func tamper(r *rand.Rand, p *producedMsg) string {
-	keys := p.pubKeys()
-	data := append([]byte{}, p.data...)
-	ext := p.ext
-	switch r.Intn(9) {
+	kind, data, ext, keys := tamperParts(r, p)
+	return fmt.Sprintf("msg.consume %s %s %s %s | %s", kind, p.mode, ext, hx(data), strings.Join(keys, " | "))
+}
+
+func tamperParts(r *rand.Rand, p *producedMsg) (kind string, data []byte, ext string, keys []string) {
+	keys = p.pubKeys()
+	data = append([]byte{}, p.data...)
+	ext = p.ext
+	kind = p.kind
+	switch r.Intn(12) {
 	case 0, 1: // bit flip anywhere
 		i := r.Intn(len(data))
 		data[i] ^= 1 << uint(r.Intn(8))
@@ -289,13 +298,209 @@ func tamper(r *rand.Rand, p *producedMsg) string {
 			data = spliceField(r, data, q.data)
 		}
 	case 7: // change of message kind: swap the tag / array prefix for another kind's
-		other := kindsAll[r.Intn(len(kindsAll))]
-		data = retag(data, other)
-		return fmt.Sprintf("msg.consume %s %s %s %s | %s", other, p.mode, ext, hx(data), strings.Join(keys, " | "))
+		kind = kindsAll[r.Intn(len(kindsAll))]
+		data = retag(data, kind)
+	case 8, 9: // the authenticator (signature / tag / ciphertext) shortened, emptied or lengthened, well-formed CBOR kept
+		data = resizeAuth(r, data, p.kind)
+	case 10: // COSE_Sign: a signer entry forged, duplicated, dropped or reordered
+		if p.kind == "sign" {
+			data = tamperSigners(r, data)
+		} else {
+			data = resizeAuth(r, data, p.kind)
+		}
 	default: // byte replaced
 		data[r.Intn(len(data))] = byte(r.Intn(256))
 	}
-	return p.consumeLine(data, ext, keys)
+	return
+}
+
+func bstrItem(b []byte) []byte { return (&cnode{mt: 2, b: b}).emit(nil, nil, nil) }
+
+// bstrContent returns the content of the definite-length byte string item, or nil,false
+func bstrContent(item []byte) ([]byte, bool) {
+	if len(item) == 0 || item[0]>>5 != 2 {
+		return nil, false
+	}
+	ai := item[0] & 0x1f
+	hl := 1
+	switch {
+	case ai < 24:
+	case ai == 24:
+		hl = 2
+	case ai == 25:
+		hl = 3
+	case ai == 26:
+		hl = 5
+	case ai == 27:
+		hl = 9
+	default:
+		return nil, false
+	}
+	if hl > len(item) {
+		return nil, false
+	}
+	return item[hl:], true
+}
+
+func resized(r *rand.Rand, c []byte) []byte {
+	switch r.Intn(6) {
+	case 0:
+		return []byte{}
+	case 1:
+		if len(c) > 0 {
+			return c[:r.Intn(len(c))]
+		}
+	case 2:
+		if len(c) > 1 {
+			return c[:len(c)-1]
+		}
+	case 3:
+		return append(append([]byte{}, c...), byte(r.Intn(256)))
+	case 4:
+		return append(append([]byte{}, c...), c...)
+	}
+	if len(c) > 0 {
+		return c[:1]
+	}
+	return []byte{0}
+}
+
+func replaceSpan(data []byte, sp [2]int, item []byte) []byte {
+	out := append([]byte{}, data[:sp[0]]...)
+	out = append(out, item...)
+	return append(out, data[sp[1]:]...)
+}
+
+// resizeAuth re-encodes the authenticator member with another length
+func resizeAuth(r *rand.Rand, data []byte, kind string) []byte {
+	_, spans := topMembers(data)
+	idx := map[string]int{"sign1": 3, "mac0": 3, "mac": 3, "encrypt0": 2, "encrypt": 2, "sign": 3}[kind]
+	if idx >= len(spans) {
+		return data
+	}
+	if kind == "sign" {
+		return tamperSigners(r, data)
+	}
+	c, ok := bstrContent(data[spans[idx][0]:spans[idx][1]])
+	if !ok {
+		return data
+	}
+	return replaceSpan(data, spans[idx], bstrItem(resized(r, c)))
+}
+
+// elements of the definite-length array item
+func arrayElems(item []byte) ([][]byte, bool) {
+	if len(item) == 0 || item[0]>>5 != 4 {
+		return nil, false
+	}
+	ai := item[0] & 0x1f
+	i := 1
+	n := int(ai)
+	switch {
+	case ai < 24:
+	case ai == 24 && len(item) > 1:
+		n, i = int(item[1]), 2
+	default:
+		return nil, false
+	}
+	var out [][]byte
+	for k := 0; k < n; k++ {
+		e := itemEnd(item, i)
+		if e < 0 {
+			return nil, false
+		}
+		out = append(out, item[i:e])
+		i = e
+	}
+	return out, true
+}
+
+func arrayItem(elems [][]byte) []byte {
+	out := appendHead(nil, nil, 4, uint64(len(elems)), nil)
+	for _, e := range elems {
+		out = append(out, e...)
+	}
+	return out
+}
+
+// tamperSigners edits the COSE_Signature array: forged entry reusing a genuine entry's headers (so the same kid)
+// with a zero / resized signature, placed before or after; duplicate; drop; swap
+func tamperSigners(r *rand.Rand, data []byte) []byte {
+	_, spans := topMembers(data)
+	if len(spans) < 4 {
+		return data
+	}
+	elems, ok := arrayElems(data[spans[3][0]:spans[3][1]])
+	if !ok || len(elems) == 0 {
+		return data
+	}
+	g := elems[r.Intn(len(elems))]
+	parts, ok := arrayElems(g)
+	forged := g
+	if ok && len(parts) == 3 {
+		sig, _ := bstrContent(parts[2])
+		var fs []byte
+		switch r.Intn(3) {
+		case 0:
+			fs = make([]byte, len(sig))
+		case 1:
+			fs = resized(r, sig)
+		default:
+			fs = flipBit(r, sig)
+		}
+		prot := parts[0]
+		if r.Intn(2) == 0 { // attacker-chosen protected bytes: one more header
+			if pc, ok := bstrContent(prot); ok && len(pc) > 0 && pc[0] >= 0xa0 && pc[0] < 0xb7 {
+				np := append([]byte{pc[0] + 1}, pc[1:]...)
+				np = append(np, 0x18, 0x63, 0x41, 0x78)
+				prot = bstrItem(np)
+			}
+		}
+		forged = arrayItem([][]byte{prot, parts[1], bstrItem(fs)})
+	}
+	var ne [][]byte
+	switch r.Intn(6) {
+	case 0, 1: // forged in front
+		ne = append([][]byte{forged}, elems...)
+	case 2: // forged behind
+		ne = append(append([][]byte{}, elems...), forged)
+	case 3: // duplicate of a genuine entry (still all valid: must verify)
+		ne = append(append([][]byte{}, elems...), g)
+	case 4: // drop one
+		ne = append([][]byte{}, elems[:len(elems)-1]...)
+	default: // forged replaces the genuine one
+		for _, e := range elems {
+			if &e[0] == &g[0] {
+				ne = append(ne, forged)
+			} else {
+				ne = append(ne, e)
+			}
+		}
+	}
+	return replaceSpan(data, spans[3], arrayItem(ne))
+}
+
+// history: the same message object, verifier and key objects used twice (msg.reuse, seq); the second use must answer
+// as it would on fresh objects
+func history(r *rand.Rand, p *producedMsg) []string {
+	keys := strings.Join(p.pubKeys(), " | ")
+	var out []string
+	// same decoded object, second call with other / the same external data
+	ext2 := []string{p.ext, hx(randBytes(r, 1+r.Intn(8))), "~", "-"}[r.Intn(4)]
+	out = append(out, fmt.Sprintf("msg.reuse %s %s %s %s %s = | %s", p.kind, p.mode, p.ext, hx(p.data), ext2, keys))
+	// a second message decoded into the same object
+	for j := 0; j < 2; j++ {
+		kind, data, ext, tk := tamperParts(r, p)
+		if kind != p.kind || strings.Join(tk, " | ") != keys {
+			continue
+		}
+		out = append(out, fmt.Sprintf("msg.reuse %s %s %s %s %s %s | %s", p.kind, p.mode, p.ext, hx(p.data), ext, hx(data), keys))
+		// and the other way round: first the altered one, then the genuine one
+		out = append(out, fmt.Sprintf("msg.reuse %s %s %s %s %s %s | %s", p.kind, p.mode, ext, hx(data), p.ext, hx(p.data), keys))
+	}
+	// the same key objects across produce and consume
+	out = append(out, "seq "+p.line+" ;; "+p.consumeLine(p.data, p.ext, p.pubKeys()))
+	return out
 }
 
 // top-level array members of an (optionally tagged) message, as byte ranges
